@@ -423,6 +423,20 @@ CYCLES = [
 ]
 
 
+def split_exprs(tpls, prefix=""):
+    """one template per `{{ .. }}`: an unknown filter or an error in the first expression must not mask the others"""
+    out = []
+    for t in tpls:
+        pre = prefix if prefix and t.startswith(prefix) else ""
+        body = t[len(pre):]
+        parts = re.findall(r"\{\{ .*? \}\}", body, re.S)
+        if len(parts) > 1 and "".join(parts) == body:
+            out += [pre + p for p in parts]
+        else:
+            out.append(t)
+    return out
+
+
 def cyclic_family(repo):
     """values that contain themselves (through namespace attributes: directly, through a second namespace, a list,
     a map, a tuple, a lazy iterable) fed to every filter, test, operator, to printing, serialization, comparison"""
@@ -449,7 +463,10 @@ def cyclic_family(repo):
             "{% macro m(a) %}{{ a }}{% endmacro %}{{ m(ns) }}{{ m(a=n2) }}", "{% with z = ns %}{{ z }}{% endwith %}", "{% include 'other.txt' %}{{ ns }}", "{{ [ns]|map('string')|list }}", "{{ [ns]|map('tojson')|list }}",
             "{{ [ns, n2]|join(', ') }}", "{{ [ns]|select|list }}", "{{ [ns, n2]|selectattr('me', 'eq', ns)|list }}", "{{ ns|default(n2) }}", "{{ namespace(a=ns) }}", "{{ cycler(ns, n2).next() }}", "{{ [ns] * 3 }}",
             "{{ range(3)|map('string')|map('replace', '1', ns)|list }}", "{% for a in [ns, n2] %}{{ loop.changed(a) }}{{ loop.cycle(ns, n2) }}{{ loop.previtem }}{% endfor %}", "{% set ns.me = none %}{{ ns }}")]
-    return out
+    res = []
+    for name, pre in CYCLES:
+        res += split_exprs([t for t in out if t.startswith(pre)], pre)
+    return res
 
 
 WNUMS = ["0", "1", "2", "255", "256", "32767", "32768", "65535", "65536", "2147483647", "2147483648", "4294967295", "4294967296", "9223372036854775807", "9223372036854775808",
@@ -485,7 +502,83 @@ def width_family():
             "{{ 'abc'|wordcount }}{{ N|string|length }}{{ N|abs }}{{ N|int }}{{ N|float }}", "{{ [1,2,3]|random }}{{ randrange(N) }}{{ randrange(0, N) }}", "{{ joiner(N)() }}{{ cycler(N).next() }}",
             "{{ 'abc'|urlize(N) }}", "{{ [1,2,3]|first(N) }}{{ [1,2,3]|last(N) }}", "{{ [1,2,3]|sum(start=N) }}{{ [N, N]|sum }}", "{% for i in range(N) %}{% break %}{% endfor %}", "{{ 2 ** N }}{{ 1 ** N }}{{ 0 ** N }}{{ (-1) ** N }}",
             "{{ 1|pluralize(N) }}{{ N|pluralize }}", "{{ '%s'|format(N) }}{{ '%d'|format(N) }}{{ '%x'|format(N) }}{{ '%e'|format(N) }}{{ '%c'|format(N) }}", "{{ 'a'|datetimeformat(N) }}{{ N|datetimeformat }}{{ N|dateformat }}{{ N|timeformat }}",
-            "{% for i in [1,2,3] %}{{ loop.cycle(N) }}{% endfor %}{{ [1,2,3]|map('center', N)|map('length')|list }}")]
+            "{% for i in [1,2,3] %}{{ loop.cycle(N) }}{% endfor %}", "{{ [1,2,3]|map('center', N)|map('length')|list }}")]
+    return split_exprs(out)
+
+
+def loop_control_family():
+    """break / continue inside every kind of body (call block, nested call blocks, macro, filter / set / with / autoescape /
+    if / block / inner loop) x enclosing loops x macros that invoke caller() 0, 1, 2 times or from their own loop"""
+    wraps = {"wrap": "{% macro wrap() %}[{{ caller() }}]{% endmacro %}", "wrap2": "{% macro wrap2() %}[{{ caller() }}{{ caller() }}]{% endmacro %}",
+             "nocall": "{% macro nocall() %}[]{% endmacro %}", "loopwrap": "{% macro loopwrap() %}{% for j in [1,2] %}({{ caller() }}){% endfor %}{% endmacro %}",
+             "argwrap": "{% macro argwrap() %}{{ caller(1) }}{% endmacro %}"}
+    loops = ["{% for x in [1,2,3] %}BODY{% endfor %}", "{% for x in [1,2,3] %}{% for y in [1,2] %}BODY{% endfor %}|{% endfor %}", "{% for x in [1,2,3] recursive %}BODY{% endfor %}",
+             "{% for x in [1,2,3] if x %}BODY{% else %}e{% endfor %}", "{% for x in [] %}{% else %}BODY{% endfor %}", "{% for x in [[1,2],[3]] recursive %}{% if x is iterable %}{{ loop(x) }}{% else %}BODY{% endif %}{% endfor %}",
+             "BODY", "{% macro outer() %}{% for x in [1,2,3] %}BODY{% endfor %}{% endmacro %}{{ outer() }}", "{% for x in [1,2,3] %}{% set ns = namespace(l=loop) %}BODY{{ ns.l.index }}{% endfor %}"]
+    bodies = ["{% call W() %}{{ x }}{% if x == 2 %}CTRL{% endif %}{% endcall %}", "{% call W() %}CTRL{% endcall %}", "{% call W() %}{% call W() %}{{ x }}CTRL{% endcall %}{% endcall %}",
+              "{% call(a) W() %}{{ a }}CTRL{% endcall %}", "{% macro inner() %}CTRL{% endmacro %}{{ inner() }}", "{% filter upper %}a{% if x == 2 %}CTRL{% endif %}b{% endfilter %}", "{% set q %}a{% if x != 1 %}CTRL{% endif %}{% endset %}{{ q }}",
+              "{% with a=1 %}CTRL{% endwith %}", "{% autoescape true %}CTRL{% endautoescape %}", "{% if x %}{% if x > 1 %}CTRL{% endif %}{% endif %}{{ x }}", "{% call W() %}{% for z in [1,2] %}{{ z }}CTRL{% endfor %}{% endcall %}",
+              "{% call W() %}{% for z in [1,2] %}{{ z }}{% endfor %}CTRL{% endcall %}", "{% block b %}CTRL{% endblock %}", "{% set q %}{% call W() %}CTRL{% endcall %}{% endset %}{{ q }}", "{% call W() %}a{% endcall %}CTRL",
+              "{% filter upper %}{% call W() %}{% with a=1 %}{% if x == 2 %}CTRL{% endif %}{% endwith %}{% endcall %}{% endfilter %}", "{{ x }}{% include 'other.txt' %}CTRL", "{% call W() %}{% include 'brk' %}{% endcall %}"]
+    out = []
+    for wn, w in wraps.items():
+        for lp in loops:
+            for b in bodies:
+                for c in ("{% break %}", "{% continue %}"):
+                    out.append((w + lp.replace("BODY", b.replace("W", wn).replace("CTRL", c)), {"templates": {"brk": c}}))
+    return out
+
+
+def escaped_objects_family():
+    """special objects (loop, caller, super, self, macros, imported modules, cycler / joiner, namespaces) stored in a namespace
+    and used AFTER the construct that created them ended: every attribute and every call"""
+    out = []
+    pre = "{% set ns = namespace() %}"
+    makers = []
+    for it in ("[1,2,3]", "[]", "'abc'", "range(3)", "{'a':1,'b':2}", "x.a", "[[1,[2]],[3]]", "u", "range(100000)"):
+        makers.append(pre + "{%% for q in %s %%}{%% set ns.l = loop %%}{%% endfor %%}" % it)
+        makers.append(pre + "{%% for q in %s %%}{%% set ns.l = loop %%}{%% break %%}{%% endfor %%}" % it)
+        makers.append(pre + "{%% for q in %s recursive %%}{%% set ns.l = loop %%}{%% if q is iterable and q is not string %%}{{ loop(q) }}{%% endif %%}{%% endfor %%}" % it)
+        makers.append(pre + "{%% for q in %s if q %%}{%% if loop.first %%}{%% set ns.l = loop %%}{%% endif %%}{%% else %%}{%% endfor %%}" % it)
+        makers.append(pre + "{%% for p in [1,2] %%}{%% for q in %s %%}{%% if loop.last %%}{%% set ns.l = loop %%}{%% endif %%}{%% endfor %%}{%% set ns.o = loop %%}{%% endfor %%}" % it)
+    makers.append(pre + "{% macro mk() %}{% for q in [1,2] %}{% set ns.l = loop %}{% endfor %}{% endmacro %}{{ mk() }}")
+    makers.append(pre + "{% for q in [1,2] %}{% set ns.l = loop %}{% endfor %}{% for z in [1] %}{% set ns.o = loop %}")  # used inside another loop
+    attrs = ["index0", "index", "length", "revindex", "revindex0", "first", "last", "depth", "depth0", "previtem", "nextitem", "nosuch"]
+    uses = ["{{ ns.l.%s }}" % a for a in attrs] + ["{{ ns.l.cycle(1, 2) }}", "{{ ns.l.cycle() }}", "{{ ns.l.changed(1) }}", "{{ ns.l.changed() }}", "{{ ns.l([1, 2]) }}", "{{ ns.l([[1]]) }}", "{{ ns.l() }}",
+                                                       "{{ ns.l.nosuch() }}", "{{ ns.l }}", "{{ ns.l|string }}", "{{ ns.l|tojson }}", "{{ ns.l|list }}", "{{ ns.l|length }}", "{{ ns.l == ns.l }}{{ ns.l < ns.l }}",
+                                                       "{{ ns.l|items|list }}", "{{ ns.l|pprint }}", "{% for i in ns.l %}{{ i }}{% endfor %}", "{{ [ns.l, ns.l]|sort }}", "{{ ns.o.revindex0 }}{{ ns.o.last }}{{ ns.o.nextitem }}",
+                                                       "{% for w in [5,6] %}{{ ns.l.revindex0 }}{{ ns.l.cycle(w) }}{{ ns.l.changed(w) }}{{ loop.index }}{% endfor %}", "{{ ns.l['revindex'] }}{{ ns.l|attr('last') }}",
+                                                       "{% macro use(l) %}{{ l.revindex }}{{ l.last }}{{ l([1]) }}{% endmacro %}{{ use(ns.l) }}"]
+    for mk in makers:
+        tail = "{% endfor %}" if mk.count("{% for") > mk.count("{% endfor") else ""
+        for u in uses:
+            out.append(mk + u + tail)
+    others = [
+        # caller / macros / call blocks
+        "{% macro w() %}{% set ns.c = caller %}<{{ caller() }}>{% endmacro %}{% for q in [1,2] %}{% call w() %}b{{ q }}{{ loop.index }}{% endcall %}{% endfor %}USE",
+        "{% macro w() %}{% set ns.c = caller %}{% endmacro %}{% call(a, b=2) w() %}{{ a }}{{ b }}{% endcall %}USE",
+        "{% macro w(a, b=[]) %}{% set ns.c = w %}{% set ns.v = varargs %}{% set ns.k = kwargs %}{{ a }}{% endmacro %}{{ w(1) }}USE",
+        "{% for q in [1] %}{% macro lm(a) %}{{ a }}{{ q }}{{ loop.index }}{% endmacro %}{% set ns.c = lm %}{% endfor %}USE",
+        "{% with z = 5 %}{% macro wm(a) %}{{ a }}{{ z }}{% endmacro %}{% set ns.c = wm %}{% endwith %}USE",
+        # super / self / blocks
+        "{% extends 'base' %}{% block b %}{% set ns = namespace() %}{% set ns.c = super %}{{ super() }}{% set ns.s = self %}{{ ns.c() }}{{ ns.s.b is defined }}{% endblock %}",
+        "{% block b %}{% set ns.c = self.b %}{% set ns.s = self %}x{% endblock %}USE",
+        # modules
+        "{% import 'mod' as mod %}{% set ns.c = mod.f %}{% set ns.m = mod %}USE{{ ns.m }}{{ ns.m.v }}{{ ns.m.f(1) }}{{ ns.m|tojson }}{{ ns.m|items|list }}",
+        "{% from 'mod' import f, v %}{% set ns.c = f %}{% set ns.m = v %}USE",
+        # cycler / joiner / namespace / dict / range / functions
+        "{% set ns.c = cycler(1, 2).next %}USE", "{% set ns.c = joiner(', ') %}USE{{ ns.c() }}{{ ns.c() }}", "{% set ns.c = namespace %}USE", "{% set ns.c = range %}USE", "{% set ns.c = debug %}USE",
+        "{% set ns.c = loop %}USE", "{% set ns.c = caller %}USE", "{% set ns.c = super %}USE", "{% set ns.c = self %}USE", "{% set ns.c = varargs %}USE", "{% set ns.c = ns %}USE",
+    ]
+    call_uses = ["{{ ns.c() }}", "{{ ns.c(1) }}", "{{ ns.c(1, 2, 3) }}", "{{ ns.c(a=1) }}", "{{ ns.c(*[1, 2]) }}", "{{ ns.c(**{'a': 1}) }}", "{{ ns.c }}", "{{ ns.c|string }}", "{{ ns.c|tojson }}", "{{ ns.c.name }}{{ ns.c.arguments }}{{ ns.c.caller }}",
+                 "{{ [1, 2]|map(ns.c)|list }}", "{% call ns.c() %}x{% endcall %}", "{% for q in [1, 2] %}{{ ns.c(q) }}{{ loop.index }}{% endfor %}", "{{ ns.c is callable }}{{ ns.c == ns.c }}{{ ns.v }}{{ ns.k }}"]
+    extra = {"templates": {"base": "[{% block b %}base{% endblock %}]", "mod": "{% set v = 1 %}{% macro f(a) %}{{ a }}{{ v }}{{ caller is defined }}{% endmacro %}"}}
+    for o in others:
+        if "USE" in o:
+            for u in call_uses:
+                out.append((pre + o.replace("USE", u), extra))
+        else:
+            out.append((o, extra))
     return out
 
 
@@ -723,7 +816,8 @@ def main():
                   ("pipelines", pipeline_templates(REPO, chk.rng, 1200000 if chk.thorough else 12000)),
                   ("mutated", mutated_fixtures(REPO, chk.rng, 400000 if chk.thorough else 4000)),
                   ("slices", slice_family(chk.thorough)), ("lexer", lexer_family(chk.thorough)), ("arith", arith_family()), ("oddvalues", odd_values_family(REPO)),
-                  ("multi", multi_template_family()), ("cyclic", cyclic_family(REPO)), ("widths", width_family())]
+                  ("multi", multi_template_family()), ("cyclic", cyclic_family(REPO)), ("widths", width_family()),
+                  ("loopcontrols", loop_control_family()), ("escaped", escaped_objects_family())]
         line_groups = [("linesyntax", line_syntax_family())]
         labels = {t: l for l, t in nest}
     hist = collections.Counter()
@@ -814,7 +908,7 @@ def main():
         else:
             remaining.append((gname, t, prof, kind, detail))
     chk.cov["explanation"] = ("Partial verification. Proved in Coq (see theorems): parser call nesting is bounded (call graph of %d functions / %d call edges, %d guarded, regenerated from parser.rs and checked by the verified checker: max rank %d, limit %d); every one of the %d parser loops that nest what they parsed one level deeper per iteration is charged against the nesting limit %d (loop table regenerated from parser.rs), and on the model of that accounting the height of every accepted expression is at most the limit; range length arithmetic stays inside i128 and yields isize elements; slices never panic; accepted instruction streams never underflow. "
-                              "Observed (exploration): %d child-process renders (boundary sweep of every built-in filter/test/function/operator x argument pools incl. 2^62..2^128-1 counts, nesting generators: %d chain shapes and %d recursion shapes at depths 10..20000 around both limits plus products of the two, seeded random filter pipelines, mutated fixtures; boundary families of the other properties' input spaces: slices and subscripts of every container kind x start/stop/step around the length and at +-2^63, whitespace control of every tag kind x every Unicode White_Space / multi-byte / NUL / BOM text around it x whitespace settings, line statements and custom delimiters, arithmetic at the 2^53 / 2^63 / 2^64 / 2^127 / 2^128 / inf / nan boundaries, odd values through every filter and test, deep and cyclic extends / include / import chains, fuel and recursion limits at their boundaries, values that contain themselves through namespace attributes (directly, through a second namespace, list, map, tuple, lazy iterable) x every filter / test / operator / printing / serialization / comparison, printf-style format strings with width / precision / flags at the 2^15 / 2^16 / 2^31 / 2^32 / 2^63 / 2^64 / 10^14 boundaries x conversions x argument kinds and every other width- or count-taking filter, function and operator with the same numbers), debug+release, 2 MiB threads, every error formatted in all forms; crashes seen: %d (known: %d). Stack meter (debug, bytes): %s."
+                              "Observed (exploration): %d child-process renders (boundary sweep of every built-in filter/test/function/operator x argument pools incl. 2^62..2^128-1 counts, nesting generators: %d chain shapes and %d recursion shapes at depths 10..20000 around both limits plus products of the two, seeded random filter pipelines, mutated fixtures; boundary families of the other properties' input spaces: slices and subscripts of every container kind x start/stop/step around the length and at +-2^63, whitespace control of every tag kind x every Unicode White_Space / multi-byte / NUL / BOM text around it x whitespace settings, line statements and custom delimiters, arithmetic at the 2^53 / 2^63 / 2^64 / 2^127 / 2^128 / inf / nan boundaries, odd values through every filter and test, deep and cyclic extends / include / import chains, fuel and recursion limits at their boundaries, values that contain themselves through namespace attributes (directly, through a second namespace, list, map, tuple, lazy iterable) x every filter / test / operator / printing / serialization / comparison, printf-style format strings with width / precision / flags at the 2^15 / 2^16 / 2^31 / 2^32 / 2^63 / 2^64 / 10^14 boundaries x conversions x argument kinds and every other width- or count-taking filter, function and operator with the same numbers, break / continue inside every kind of body (call blocks, macros, filter / set / with blocks, inner loops) x enclosing loops x macros that invoke caller() never / once / twice / from their own loop, special objects (loop, caller, super, self, macros, modules, cycler / joiner) stored in a namespace and used after the construct that made them ended - every attribute and call), debug+release, 2 MiB threads, every error formatted in all forms; crashes seen: %d (known: %d). Stack meter (debug, bytes): %s."
                               % (info["functions"], info["edges"], info["guarded_edges"], info["max_rank"], info["max_recursion"], len(info.get("loops", [])), info.get("max_nesting", 0),
                                  total, len(CHAINS), len(NESTS), len(crashes), len(crashes) - len(remaining),
                                  ", ".join("%s %d" % (k, v["bytes"]) for k, v in sorted(meter.get("debug", {}).items()) if "bytes" in v) + "; tallest accepted AST of the generators: %s nodes (bound %s)" % (meter.get("ast_height", {}).get("max"), meter.get("ast_height", {}).get("bound"))))
